@@ -4,15 +4,16 @@ go 1.21
 
 require (
 	github.com/anishathalye/porcupine v1.3.0
+	github.com/axiomhq/hyperloglog v0.0.0-20191112132149-a4c4c47bc57f
 	github.com/blugelabs/bluge v0.0.0
 	github.com/blugelabs/bluge_segment_api v0.2.0
 	github.com/blugelabs/ice v1.0.0
 	github.com/blugelabs/ice/v2 v2.0.1
+	golang.org/x/text v0.3.0
 )
 
 require (
 	github.com/RoaringBitmap/roaring v0.9.4 // indirect
-	github.com/axiomhq/hyperloglog v0.0.0-20191112132149-a4c4c47bc57f // indirect
 	github.com/bits-and-blooms/bitset v1.2.0 // indirect
 	github.com/blevesearch/go-porterstemmer v1.0.3 // indirect
 	github.com/blevesearch/mmap-go v1.0.4 // indirect
@@ -24,7 +25,6 @@ require (
 	github.com/golang/snappy v0.0.1 // indirect
 	github.com/klauspost/compress v1.15.2 // indirect
 	golang.org/x/sys v0.0.0-20220520151302-bc2c85ada10a // indirect
-	golang.org/x/text v0.3.0 // indirect
 )
 
 replace github.com/blugelabs/bluge => /repo
